@@ -254,11 +254,15 @@ class Machine:
             mir = self.BODIES[p]['mir']
             if not (mir['arg_count'] == 1 and 'StateMachine' in mir['locals'][1] and mir['locals'][0].startswith('std::result::Result<bool')):
                 continue
-            for i, c in F.calls(p):
-                if callee_of(c).endswith('::push') and c['args']:
-                    for r in F.trace(p, c['args'][0]):
-                        if r[0] == 'param' and ('minus_lines' in r[2] or 'plus_lines' in r[2]):
-                            self.HLH.add(p)
+            cands = [p] + [q for q in ((callee_of(c) if callee_of(c) in self.BODIES else (c.get('resolved') or '')) for _, c in F.calls(p))
+                           if q in self.BODIES and q != p and 'StateMachine' in ' '.join(self.BODIES[q]['mir']['locals'][1:2])
+                           and not self.BODIES[q]['mir']['locals'][0].startswith('std::result::Result<bool')]
+            for q in cands:
+                for i, c in F.calls(q):
+                    if callee_of(c).endswith('::push') and c['args']:
+                        for r in F.trace(q, c['args'][0]):
+                            if r[0] == 'param' and ('minus_lines' in r[2] or 'plus_lines' in r[2]):
+                                self.HLH.add(p)
         # the file-header composer(s): state-machine methods that read both file names and both file events without writing the names
         self.COMPOSERS = set()
         self.composer_depth = 0
